@@ -56,6 +56,7 @@ opcodes = {
     "memory.size": 0x3F,
     "memory.grow": 0x40,
     "i32.const": 0x41,
+    "f32.const": 0x43,
     "i32.eqz": 0x45,
     "i32.eq": 0x46,
     "i32.ne": 0x47,
@@ -388,7 +389,10 @@ class Instruction:
         WriteByte(output, self.__opcode)
         if self.__args:
             for arg in self.__args:
-                if self.__opcode == opcodes["i32.const"]:
+                if isinstance(arg, float):
+                    # Floating point immediates are stored as they are
+                    WriteFloat(output, arg)
+                elif self.__opcode == opcodes["i32.const"]:
                     # The immediate of an integer constant is signed
                     WriteSignedInteger(output, arg)
                 else:
